@@ -6,10 +6,11 @@ from common import hx
 from discsim import ascii_bytes, rb
 
 
-def good_reply(ctx, rng, version=None, dtype=0xAC):
+def good_reply(ctx, rng, version=None, dtype=0xAC, dev_id=None):
     sn = ascii_bytes(rng, 32)
     name = b"net_" + (b"%02x" % dtype) + b"_" + ascii_bytes(rng, 4)
-    return discsim.spec_reply(ctx, rng, version or rng.choice([2, 3]), rng.randrange(2 ** 48), "10.1.1.1", 6444, sn, name)
+    return discsim.spec_reply(ctx, rng, version or rng.choice([2, 3]), rng.randrange(2 ** 48) if dev_id is None else dev_id,
+                              "10.1.1.1", 6444, sn, name)
 
 
 def bad_reply(ctx, rng, kind):
@@ -153,6 +154,27 @@ def run(ctx):
                     goodset[ip] = any(p == q for (jp, _, q) in dg if jp == ip and good.get(ip) and q == p) if good[ip] else \
                         (p in [q for (jp, sp2, q) in dg if jp == ip and sp2 == 6446])
             scenario(ctx, "bad_" + kind, rng, ordered, goodset)
+    # hosts are told apart by ADDRESS, not by what they say about themselves: several addresses answering with the same
+    # device id (a cloned or relayed module), with byte-identical replies, or with replies differing only in version
+    for _ in range(6 if not thorough else 60):
+        n = rng.randrange(2, 5)
+        hosts = ips[:n]
+        did = rng.randrange(2 ** 48)
+        same_bytes = good_reply(ctx, rng, dev_id=did)
+        mode = rng.choice(["same_id", "same_bytes", "same_id_mixed_versions"])
+        dg = []
+        for i, ip in enumerate(hosts):
+            if mode == "same_bytes":
+                p = same_bytes
+            elif mode == "same_id":
+                p = good_reply(ctx, rng, dev_id=did)
+            else:
+                p = good_reply(ctx, rng, version=2 + i % 2, dev_id=did)
+            dg.append((ip, 6445, p))
+            if rng.random() < 0.4:
+                dg.append((ip, 6446, p))
+        rng.shuffle(dg)
+        scenario(ctx, "same_device_id", rng, dg, {ip: True for ip in hosts})
     # random larger cases
     for _ in range(60 if not thorough else 1500):
         hosts = ips[:rng.randrange(1, 5)]
